@@ -38,6 +38,7 @@ PROGRAMS = {
     'enum_utf': ('enum_utf.cpp', 'exe'),
     'enum_tag': ('enum_tag.cpp', 'exe'),
     'enum_cmap': ('enum_cmap.cpp', 'exe'),
+    'enum_face': ('enum_face.cpp', 'exe'),
     'pbt_zones': ('pbt_zones.cpp', 'exe'),
     'pbt_coll': ('pbt_coll.cpp', 'exe'),
     'pbt_vm': ('pbt_vm.cpp', 'exe'),
